@@ -2,6 +2,7 @@
 from __future__ import annotations
 
 import itertools
+import os
 import warnings
 
 from vf import core
@@ -283,6 +284,9 @@ def run(ctx: core.Ctx):
                         "reference and in the SandboxedEnvironment subclass",
                         "exceptions compared by class name; log operands compared by (type, value)"]
     subs = subsets(ctx.quick)
+    if os.environ.get("VERIF_SMOKE"):
+        subs = subs[::int(os.environ["VERIF_SMOKE"])]
+        ctx.cap_hit("VERIF_SMOKE: only every n-th subset was run")
     ctx.pmap(shard, [(ctx.quick, i, s) for i, s in enumerate(subs)])
     ctx.cov["bounds"] = {"subsets": len(subs), "subset_sizes": "0,1,2,9" if ctx.quick else "all 512",
                          "shapes": SPACE.count(), "leaf_vectors": list(LEAF_VECS), "data_assignments": len(DATA),
